@@ -269,7 +269,7 @@ def execute(case, scratch):
         W.cleanup(top)
 
 
-TIERS = {"quick": {"runs": 2400, "wall_cap": 420}, "thorough": {"runs": 60000, "wall_cap": 3000}}
+TIERS = {"quick": {"runs": 4000, "wall_cap": 420}, "thorough": {"runs": 120000, "wall_cap": 3000}}
 RULE = ("one run = one generated world into which the fault injector placed dangling includes (quote/angle, reached and "
         "unreached branches, repeated spellings, guarded and repeated headers, several TUs/platforms), unknown and exempt "
         "directives, entries for absent files, unknown compilers and flags; executed in-process (captured log records) and "
